@@ -293,7 +293,19 @@ func findDef(pk *packagesPackage, obj types.Object) ast.Expr {
 		}
 		ast.Inspect(file, func(nd ast.Node) bool {
 			as, ok := nd.(*ast.AssignStmt)
-			if !ok || len(as.Lhs) != len(as.Rhs) {
+			if !ok {
+				return true
+			}
+			if len(as.Lhs) != len(as.Rhs) {
+				// v, err := f(...): the first result of the call
+				if len(as.Rhs) == 1 && len(as.Lhs) == 2 {
+					if id, ok := as.Lhs[0].(*ast.Ident); ok && pk.TypesInfo.ObjectOf(id) == obj {
+						if _, isCall := ast.Unparen(as.Rhs[0]).(*ast.CallExpr); isCall {
+							def = as.Rhs[0]
+							n++
+						}
+					}
+				}
 				return true
 			}
 			for i, l := range as.Lhs {
